@@ -116,8 +116,8 @@ def _quiet():
 
 def shards(tier, seed):
     n = 16
-    per = {"quick": 45, "thorough": 800}[tier]
-    sym = {"quick": 3, "thorough": 30}[tier]
+    per = {"quick": 150, "thorough": 6000}[tier]
+    sym = {"quick": 8, "thorough": 80}[tier]
     return [{"seed": subseed(seed, PID, i), "n_cases": per, "n_symbolic": sym,
              "budget_s": {"quick": 350, "thorough": 2400}[tier]} for i in range(n)]
 
